@@ -469,6 +469,7 @@ type e2Run struct {
 	zombieOut []*outputstream.OutputStream
 	sessionsMayEnd bool
 	retried      map[[2]uint64]string
+	retriedMu    sync.Mutex
 	attackTokens []string
 	cfgAccepted  int
 	lastCfg      string
@@ -760,7 +761,7 @@ func (c *e2Client) life(ctx context.Context, wg *sync.WaitGroup, barrier *sync.W
 			p.ping = true
 		}
 		if c.post(ctx, line, p) && r.prop == "C10" {
-			c.retryLast(ctx, line)
+			c.retryLast(ctx, line, p)
 		}
 		if !c.sleep(ctx, time.Duration(100+r.choice(fmt.Sprintf("client/%d/think", c.idx), 1500))*time.Millisecond) {
 			return
@@ -781,7 +782,7 @@ func (r *e2Run) liveSessionGone(c *e2Client, node int, what, body string) {
 
 // retrier (C10): after an acknowledged POST, repeat it with the same ClientMessageId on a node that has
 // applied the first copy (the property's precondition), 1-3 times.
-func (c *e2Client) retryLast(ctx context.Context, line string) {
+func (c *e2Client) retryLast(ctx context.Context, line string, p *e2Post) {
 	r := c.run
 	id := c.cmid*1000003 + uint64(c.idx+1)
 	body, _ := json.Marshal(map[string]interface{}{"Data": line, "ClientMessageId": id})
@@ -816,7 +817,14 @@ func (c *e2Client) retryLast(ctx context.Context, line string) {
 		if code != 200 {
 			r.violate("C10", "retry-not-acknowledged", "retry-not-acknowledged", "a repeated POST (same client message id %d, already applied on node %d) was answered %d: %s", id, node, code, trunc(string(rb), 100))
 		}
-		r.retried[[2]uint64{c.sid, id}] = line
+		// the log-entry count is only judged when the original needed a single attempt: a protocol-level
+		// retry of the original may legitimately have put a second copy into the log while the first was
+		// still in flight (outside C10's precondition; such a copy is skipped when applied, see C05)
+		if p != nil && p.attempts == 1 {
+			r.retriedMu.Lock()
+			r.retried[[2]uint64{c.sid, id}] = line
+			r.retriedMu.Unlock()
+		}
 	}
 }
 
